@@ -128,7 +128,7 @@ def collect(ck, n_cases, n_ops, fixed=()):
         out += r["results"]
     crashed = [r for r in out if "crash" in r]
     if crashed:
-        ck.broke("impl-runner-crash", crashed[0]["crash"])
+        ck.runner_crash({"backend": crashed[0].get("backend"), "case_seed": crashed[0].get("seed")}, crashed[0]["crash"])
     return [r for r in out if "crash" not in r]
 
 
@@ -160,7 +160,8 @@ def run(ck: Check):
                   "leaving_a_context_with_an_explicit_parent": "C12:restore:explicit-parent",
                   "failing_factory_leaves_the_current_context_alone": "C12:restore:failed-factory",
                   "refused_entry_changes_nothing": "C12:restore:refused-entry",
-                  "parent_is_the_current_context_itself": "C12:parent"})
+                  "parent_is_the_current_context_itself": "C12:parent",
+                  "closing_anothers_context_leaves_the_closers_own_alone": "C12:disturbed-by-another-task"})
     sigs, n_fail = {}, 0
     for r in results:
         for sig, what in oracle(r):
